@@ -1,7 +1,7 @@
 #!/usr/bin/env python3
 """Regression of detection power: every seeded change under seeded/ is applied to a scratch worktree of
 /repo (4 in parallel, removed afterwards) and the quick check of its property must exit 1.
-usage: bin/seeds_recheck.py [name-substring]"""
+usage: bin/seeds_recheck.py [name-substring ...]   (with substrings: a partial re-run merged into recheck.json)"""
 import json
 import os
 import subprocess
@@ -9,7 +9,7 @@ import sys
 from concurrent.futures import ThreadPoolExecutor
 
 V = os.path.dirname(os.path.dirname(os.path.abspath(__file__)))
-names = sorted(d for d in os.listdir(V + "/seeded") if os.path.isdir(V + "/seeded/" + d) and (len(sys.argv) < 2 or sys.argv[1] in d))
+names = sorted(d for d in os.listdir(V + "/seeded") if os.path.isdir(V + "/seeded/" + d) and (len(sys.argv) < 2 or any(a in d for a in sys.argv[1:])))
 
 
 def one(args):
@@ -64,5 +64,11 @@ for s in range(slots):
     subprocess.run("rm -rf /tmp/seedrc-target-%d /tmp/seedrc-out-%d /tmp/seedrc-work-%d" % (s, s, s), shell=True)
 missed = [r[0] for r in allres if not r[2].startswith("caught")]
 blind = [r[0] for r in allres if r[2].startswith("caught-not")]
-json.dump([{"name": r[0], "property": r[1], "status": r[2], "violations": r[3]} for r in sorted(allres)], open(V + "/seeded/recheck.json", "w"), indent=1)
+new = {r[0]: {"name": r[0], "property": r[1], "status": r[2], "violations": r[3]} for r in allres}
+if len(sys.argv) >= 2 and os.path.exists(V + "/seeded/recheck.json"):
+    # a partial re-run: results of the seeds that were not re-run are kept
+    old = {e["name"]: e for e in json.load(open(V + "/seeded/recheck.json"))}
+    old.update(new)
+    new = {k: v for k, v in old.items() if os.path.isdir(V + "/seeded/" + k)}
+json.dump([new[k] for k in sorted(new)], open(V + "/seeded/recheck.json", "w"), indent=1)
 print("seeded changes: %d, caught: %d, documented blind spots: %s, not caught: %s" % (len(allres), len(allres) - len(missed) - len(blind), blind, missed))
